@@ -389,9 +389,15 @@ func switchFrom(t *task, to int, site int, kind uint8) {
 }
 
 // Yield is called before every statement of the instrumented code.
-//
-//go:norace
 func Yield(site int) {
+	yield(site)
+	if timersPending() {
+		fireTimers()
+	}
+}
+
+//go:norace
+func yield(site int) {
 	if mode == ModeOff {
 		return
 	}
